@@ -18,13 +18,19 @@ LEVEL_TEXT = ("PE.get_statistic (7 statistics), PE.change_unit (all 10 x 10 orde
               "(not derived here); companion arrays of ape()/rpe(): bounded stand-in.")
 LEVEL_NOTE = ("floats as reals; trusted: numpy mean/sum/std(ddof)/median/min/max/power, math.sqrt, rad2deg/deg2rad as x*180/pi, "
               "x*pi/180; sums are ghost prefix sums; min <= mean <= rmse <= max and rmse^2 = mean^2 + std^2 are checked numerically")
-SIDECARS = ["contracts.lie_algebra", "contracts.geometry", "contracts.filters", "contracts.metrics"]
-FUNCTIONS = ["evo.core.metrics.PE.get_statistic", "evo.core.metrics.PE.change_unit", "evo.core.metrics.PE.get_result"]
+SIDECARS = ["contracts.lie_algebra", "contracts.geometry", "contracts.filters", "contracts.metrics", "contracts.overwrite",
+            "contracts.ape_rpe_cli"]
+FUNCTIONS = ["evo.core.metrics.PE.get_statistic", "evo.core.metrics.PE.change_unit", "evo.core.metrics.PE.get_result",
+             "evo.core.metrics.RPE.process_data", "evo.main_ape.ape", "evo.main_rpe.rpe"]
+# of RPE.process_data only the point-distance relations carry C12 clauses (values <-> end indices: the companion arrays
+# of rpe() are indexed by delta_ids); the other configurations belong to C02
+CASE_FILTER = {"evo.core.metrics.RPE.process_data": lambda case: str(case.get("relation", "")).startswith("point_distance")}
 LEMMAS = []
 TRUSTED = ["numpy.mean/sum/std(ddof=0)/median/min/max/power", "math.sqrt", "numpy.rad2deg(x) = x*180/pi, numpy.deg2rad(x) = x*pi/180"]
 ASSUMPTIONS = ["M1 (min <= median <= max, min <= mean <= rmse <= max, rmse^2 = mean^2 + std^2) is mathematics about the "
                "definitions, independent of evo's code: assumed (textbook), checked numerically in the bounded run",
-               "companion arrays of main_ape.ape() / main_rpe.rpe(): bounded stand-in"]
+               "companion arrays of ape() / rpe(): wiring proof (they are the processed trajectories' own arrays, for RPE without "
+               "the first pose) + value/end-index bookkeeping of RPE.process_data for the point-distance relations; end to end: bounded"]
 EXPLANATION = "finite enumeration of statistic types / unit pairs / relations; error arrays symbolic"
 
 
@@ -108,6 +114,14 @@ def chk_companions(inp):
     from evo.core.units import Unit
     rng = np.random.default_rng(inp["seed"])
     ref, est = P.rand_pair(rng, inp["n"], noise=0.05, stamps=True, from_poses=inp["from_poses"])
+    if inp.get("stationary"):
+        # the reference stands still over some frames: pairs with zero reference distance (ratio relation skips them)
+        from evo.core.trajectory import PoseTrajectory3D
+        xyz = ref.positions_xyz.copy()
+        for k in range(1, len(xyz)):
+            if k % 3 == 0:
+                xyz[k] = xyz[k - 1]
+        ref = PoseTrajectory3D(xyz, ref.orientations_quat_wxyz.copy(), ref.timestamps.copy())
     rel = metrics.PoseRelation[inp["relation"]]
     f = []
     if inp["which"] == "ape":
@@ -146,6 +160,10 @@ def chk_companions(inp):
             pairs = metrics.id_pairs_from_delta(e0.poses_se3, delta, unit, 0.1, ap)
         except metrics.filters.FilterException:
             return []
+        if inp["relation"] == "point_distance_error_ratio":
+            pairs = [(i, j) for (i, j) in pairs if np.linalg.norm(r0.positions_xyz[j] - r0.positions_xyz[i]) != 0]
+            if not pairs:
+                return []
         ids = [int(j) for _, j in pairs]
         res = main_rpe.rpe(r, e, rel, delta, unit, all_pairs=ap, align=inp["align"])
         k = len(res.np_arrays["error_array"])
@@ -193,6 +211,10 @@ def _cases(tier, seed):
             yield ("unit", {"old": o, "new": n_, "err": np.abs(rng.normal(size=5))})
             yield ("unit", {"old": o, "new": n_, "err": []})
     rels = ["translation_part", "full_transformation", "rotation_angle_deg", "rotation_angle_rad", "rotation_part", "point_distance"]
+    for it in range(24 if tier == "quick" else 400):
+        yield ("companions", {"seed": 700 + it, "n": int(rng.integers(6, 40)), "which": "rpe", "relation": "point_distance_error_ratio",
+                              "align": False, "from_poses": bool(it % 2), "delta": 1 + it % 2, "delta_unit": "frames",
+                              "delta_val": 1.0, "all_pairs": bool(it % 4 == 3), "stationary": it % 3 != 2})
     for it in range(64 if tier == "quick" else 1500):
         yield ("companions", {"seed": 900 + it, "n": int(rng.integers(4, 40)), "which": "ape" if it % 2 else "rpe",
                               "relation": rels[it % 6], "align": bool(it % 3 == 0), "from_poses": bool(it % 2),
